@@ -53,9 +53,10 @@ theorem while_eq (p acc z : List Nat) (i a : Nat) (hi : p[i]? = some a) (hb : Bo
         simp only [List.getD_eq_getElem?_getD] at ih1 ih2 hle
         simp [lps_while1, Kmp.fallback, e1, e2, e3, e4, e5, h0, hne]
         exact ⟨ih1, by omega⟩
-    · have hq0 : q = 0 := by omega
+    · -- q = 0: the loop stops (whichever operand of `&&` the source tests first)
+      have hq0 : q = 0 := by omega
       subst hq0
-      simp [lps_while1, Kmp.fallback]
+      simp [lps_while1, Kmp.fallback, e1, e2]
 
 theorem bounded_snoc (acc : List Nat) (v : Nat) (hb : Bounded acc) (hv : v ≤ acc.length) : Bounded (acc ++ [v]) := by
   intro j hj
